@@ -1,9 +1,15 @@
 (* C11 - Event and Condition: no early, spurious or lost wake-ups.
    This file contains only statements closed by `exact` and their Print Assumptions.
-   Vocabulary (prims/EventCond.v): `ereach s` / `creach fa s` = s is reached from the initial state by SOME op
-   sequence (all tasks, all interleavings of atomic segments, native and AnyIO cancellations at any point);
+   Vocabulary (prims/EventCond.v):
+   `ereach s` / `creach fa s` = s is reached from the initial state by SOME op sequence.  For conditions the
+   alphabet is: acquire / acquire_nowait / release / notify n / notify_all / wait on ANY condition `c` built on the
+   one shared lock, lock.acquire / acquire_nowait / release directly on that lock, resumptions, native
+   Task.cancel() and AnyIO scope cancellation of blocked tasks - all tasks, all interleavings of atomic segments.
+   `In t (held (lk s))` = an acquire (any route) returned to t and t has not released (any route) since.
    `creach_clean fa s` = additionally no NATIVE Task.cancel() landed inside wait()'s shielded re-acquire
-   (documented scope: AnyIO cancellation cannot do that). *)
+   (documented scope: AnyIO cancellation cannot do that).
+   `no_late_handover s0 ops` = no step of `ops` hands a notification over to a waiter that began to wait after the
+   notify call that issued it (known finding F18, refuted without the hypothesis below). *)
 From AV Require Import Base Lock LockProofs EventCond EventCondProofs EventCondThms.
 
 (* ---------------- Event ---------------- *)
@@ -42,69 +48,73 @@ Theorem C11_event_no_spurious_wakeup : forall s t,
 Proof. exact event_no_spurious_wakeup. Qed.
 Print Assumptions C11_event_no_spurious_wakeup.
 
-(* ---------------- Condition ---------------- *)
+(* ---------------- Conditions on a shared lock ---------------- *)
 Theorem C11_cond_wait_returns_notified_and_holding : forall fa s t s',
-  creach fa s -> (exists e, cphase_of s t = PWait e \/ exists x, cphase_of s t = PReacq e x) ->
+  creach fa s -> (exists c e, cphase_of s t = PWait c e \/ exists x, cphase_of s t = PReacq c e x) ->
   cstep s (CResume t) = (s', RDone) ->
-  (exists e, (cphase_of s t = PWait e \/ cphase_of s t = PReacq e false) /\
-             eset s e = true /\ In e (setlog s) /\ In e (inflight s)) /\
-  In t (held (lk s')) /\ owner (lk s') = Some t /\ owner_rec s' = Some t /\ cphase_of s' t = PIdle /\
+  (exists c e, (cphase_of s t = PWait c e \/ cphase_of s t = PReacq c e false) /\
+               eset s e = true /\ In e (setlog s) /\ In e (inflight s)) /\
+  In t (held (lk s')) /\ owner (lk s') = Some t /\ cphase_of s' t = PIdle /\
   consumed s' = S (consumed s).
 Proof. exact cond_wait_returns_notified_and_holding. Qed.
 Print Assumptions C11_cond_wait_returns_notified_and_holding.
 
 Theorem C11_cond_wait_ends_holding_clean : forall fa s t s' res,
-  creach_clean fa s -> (exists e, cphase_of s t = PWait e \/ exists x, cphase_of s t = PReacq e x) ->
+  creach_clean fa s -> (exists c e, cphase_of s t = PWait c e \/ exists x, cphase_of s t = PReacq c e x) ->
   cstep s (CResume t) = (s', res) -> res <> RRejected -> res <> RBlocked ->
   (res = RDone \/ res = RCancelled) /\
-  In t (held (lk s')) /\ owner (lk s') = Some t /\ owner_rec s' = Some t /\ cphase_of s' t = PIdle /\
+  In t (held (lk s')) /\ owner (lk s') = Some t /\ cphase_of s' t = PIdle /\
   lost s' = lost s.
 Proof. exact cond_wait_ends_holding_clean. Qed.
 Print Assumptions C11_cond_wait_ends_holding_clean.
 
-Theorem C11_cond_notify_at_most_n_fifo : forall fa s t n s',
-  creach fa s -> cstep s (CNotify t n) = (s', RDone) ->
-  let k := Nat.min n (length (cwaiters s)) in
-  let woken := firstn k (cwaiters s) in
+Theorem C11_cond_notify_at_most_n_fifo : forall fa s c t n s',
+  creach fa s -> cstep s (CNotify c t n) = (s', RDone) ->
+  let k := Nat.min n (length (cwaiters s c)) in
+  let woken := firstn k (cwaiters s c) in
   length woken = k /\ k <= n /\
-  cwaiters s = woken ++ cwaiters s' /\ subseq (cwaiters s) (cenq s) /\
+  cwaiters s c = woken ++ cwaiters s' c /\ subseq (cwaiters s c) (cenq s) /\
+  (forall c', c' <> c -> cwaiters s' c' = cwaiters s c') /\
   setlog s' = setlog s ++ woken /\
   (forall e, eset s' e = true <-> eset s e = true \/ In e woken) /\
   (forall e, In e woken -> efut s' e = resolved (efut s e)) /\
   (forall e, ~ In e woken -> efut s' e = efut s e) /\
   issued s' = issued s + k /\
-  lk s' = lk s /\ owner_rec s' = owner_rec s /\ cphase_of s' = cphase_of s.
+  lk s' = lk s /\ cphase_of s' = cphase_of s.
 Proof. exact cond_notify_at_most_n_fifo. Qed.
 Print Assumptions C11_cond_notify_at_most_n_fifo.
 
-Theorem C11_cond_notify_all_wakes_everyone : forall fa s t s',
-  creach fa s -> cstep s (CNotifyAll t) = (s', RDone) ->
-  cwaiters s' = [] /\ setlog s' = setlog s ++ cwaiters s /\
-  (forall e, eset s' e = true <-> eset s e = true \/ In e (cwaiters s)) /\
-  (forall e, In e (cwaiters s) -> efut s' e = resolved (efut s e)) /\
-  (forall e, ~ In e (cwaiters s) -> efut s' e = efut s e) /\
-  issued s' = issued s + length (cwaiters s) /\ lk s' = lk s /\ cphase_of s' = cphase_of s.
+Theorem C11_cond_notify_all_wakes_everyone : forall fa s c t s',
+  creach fa s -> cstep s (CNotifyAll c t) = (s', RDone) ->
+  cwaiters s' c = [] /\ (forall c', c' <> c -> cwaiters s' c' = cwaiters s c') /\
+  setlog s' = setlog s ++ cwaiters s c /\
+  (forall e, eset s' e = true <-> eset s e = true \/ In e (cwaiters s c)) /\
+  (forall e, In e (cwaiters s c) -> efut s' e = resolved (efut s e)) /\
+  (forall e, ~ In e (cwaiters s c) -> efut s' e = efut s e) /\
+  issued s' = issued s + length (cwaiters s c) /\ lk s' = lk s /\ cphase_of s' = cphase_of s.
 Proof. exact cond_notify_all_wakes_everyone. Qed.
 Print Assumptions C11_cond_notify_all_wakes_everyone.
 
-Theorem C11_cond_notification_passed_on : forall fa s t e h q s' res,
-  creach fa s -> cphase_of s t = PWait e -> eset s e = true ->
+Theorem C11_cond_notification_passed_on : forall fa s t c e h q s' res,
+  creach fa s -> cphase_of s t = PWait c e -> eset s e = true ->
   (efut s e = FCancelled \/ mustc (lk s) t = true) ->
-  cwaiters s = h :: q ->
+  cwaiters s c = h :: q ->
   cstep s (CResume t) = (s', res) ->
   res <> RDone /\
-  cwaiters s' = q /\ eset s' h = true /\ efut s' h = resolved (efut s h) /\ setlog s' = setlog s ++ [h] /\
-  (exists th, th <> t /\ cphase_of s th = PWait h /\ cphase_of s' th = PWait h) /\
+  cwaiters s' c = q /\ (forall c', c' <> c -> cwaiters s' c' = cwaiters s c') /\
+  eset s' h = true /\ efut s' h = resolved (efut s h) /\ setlog s' = setlog s ++ [h] /\
+  horizon s' h = horizon s e /\
+  (exists th, th <> t /\ cphase_of s th = PWait c h /\ cphase_of s' th = PWait c h) /\
   In h (inflight s') /\ ~ In e (inflight s') /\ length (inflight s') = length (inflight s) /\
   issued s' = issued s /\ consumed s' = consumed s /\ dropped s' = dropped s /\ lost s' = lost s.
 Proof. exact cond_notification_passed_on. Qed.
 Print Assumptions C11_cond_notification_passed_on.
 
-Theorem C11_cond_notification_passed_on_to_nobody : forall fa s t e s' res,
-  creach fa s -> cphase_of s t = PWait e -> eset s e = true ->
-  (efut s e = FCancelled \/ mustc (lk s) t = true) -> cwaiters s = [] ->
+Theorem C11_cond_notification_passed_on_to_nobody : forall fa s t c e s' res,
+  creach fa s -> cphase_of s t = PWait c e -> eset s e = true ->
+  (efut s e = FCancelled \/ mustc (lk s) t = true) -> cwaiters s c = [] ->
   cstep s (CResume t) = (s', res) ->
-  res <> RDone /\ cwaiters s' = [] /\ dropped s' = S (dropped s) /\
+  res <> RDone /\ cwaiters s' = cwaiters s /\ dropped s' = S (dropped s) /\
   S (length (inflight s')) = length (inflight s) /\
   issued s' = issued s /\ consumed s' = consumed s /\ lost s' = lost s.
 Proof. exact cond_notification_passed_on_to_nobody. Qed.
@@ -118,7 +128,7 @@ Print Assumptions C11_cond_notifications_conserved.
 Theorem C11_cond_inflight_characterised : forall fa s e,
   creach fa s ->
   (In e (inflight s) <->
-   eset s e = true /\ exists t, cphase_of s t = PWait e \/ cphase_of s t = PReacq e false).
+   eset s e = true /\ exists t c, cphase_of s t = PWait c e \/ cphase_of s t = PReacq c e false).
 Proof. exact cond_inflight_characterised. Qed.
 Print Assumptions C11_cond_inflight_characterised.
 
@@ -127,58 +137,119 @@ Theorem C11_cond_nothing_lost_clean : forall fa s,
 Proof. exact cond_nothing_lost_clean. Qed.
 Print Assumptions C11_cond_nothing_lost_clean.
 
-Theorem C11_cond_queue_has_live_waiters : forall fa s e,
-  creach fa s -> In e (cwaiters s) ->
-  eset s e = false /\ efut s e <> FSet /\ exists t, cphase_of s t = PWait e.
+Theorem C11_cond_queue_has_live_waiters : forall fa s c e,
+  creach fa s -> In e (cwaiters s c) ->
+  eset s e = false /\ efut s e <> FSet /\ exists t, cphase_of s t = PWait c e.
 Proof. exact cond_queue_has_live_waiters. Qed.
 Print Assumptions C11_cond_queue_has_live_waiters.
 
-Theorem C11_cond_waiter_runnable_iff_notified_or_cancelled : forall fa s t e,
-  creach fa s -> cphase_of s t = PWait e ->
+Theorem C11_cond_waiter_runnable_iff_notified_or_cancelled : forall fa s t c e,
+  creach fa s -> cphase_of s t = PWait c e ->
   (eset s e = true -> efut s e <> FPending /\ snd (cstep s (CResume t)) <> RRejected) /\
-  (eset s e = false -> In e (cwaiters s) /\
+  (eset s e = false -> In e (cwaiters s c) /\
      (efut s e = FPending /\ snd (cstep s (CResume t)) = RRejected \/
       efut s e = FCancelled /\ snd (cstep s (CResume t)) <> RDone)).
 Proof. exact cond_waiter_runnable_iff_notified_or_cancelled. Qed.
 Print Assumptions C11_cond_waiter_runnable_iff_notified_or_cancelled.
 
-Theorem C11_cond_requires_holder : forall fa s t,
+(* ---- holder test: both directions, every condition of the lock, every way of taking / giving up the lock ---- *)
+Theorem C11_cond_requires_holder : forall fa s c t,
   creach fa s -> cphase_of s t = PIdle -> ~ In t (held (lk s)) ->
-  cstep s (CWait t) = (s, RRuntime) /\ (forall n, cstep s (CNotify t n) = (s, RRuntime)) /\
-  cstep s (CNotifyAll t) = (s, RRuntime).
+  cstep s (CWait c t) = (s, RRuntime) /\ (forall n, cstep s (CNotify c t n) = (s, RRuntime)) /\
+  cstep s (CNotifyAll c t) = (s, RRuntime).
 Proof. exact cond_requires_holder. Qed.
 Print Assumptions C11_cond_requires_holder.
 
-Theorem C11_cond_owner_record_exact : forall fa s t,
-  creach fa s -> (owner_rec s = Some t <-> In t (held (lk s))).
-Proof. exact cond_owner_record_exact. Qed.
-Print Assumptions C11_cond_owner_record_exact.
-
-Theorem C11_cond_holder_accepted : forall fa s t n,
+Theorem C11_cond_holder_accepted : forall fa s c t n,
   creach fa s -> In t (held (lk s)) ->
-  snd (cstep s (CNotify t n)) = RDone /\ snd (cstep s (CNotifyAll t)) = RDone /\
-  snd (cstep s (CWait t)) = RBlocked /\ cwaiters (fst (cstep s (CWait t))) = cwaiters s ++ [nev s] /\
-  ~ In t (held (lk (fst (cstep s (CWait t))))).
+  snd (cstep s (CNotify c t n)) = RDone /\ snd (cstep s (CNotifyAll c t)) = RDone /\
+  snd (cstep s (CWait c t)) = RBlocked /\
+  cwaiters (fst (cstep s (CWait c t))) c = cwaiters s c ++ [nev s] /\
+  cphase_of (fst (cstep s (CWait c t))) t = PWait c (nev s) /\
+  ~ In t (held (lk (fst (cstep s (CWait c t))))).
 Proof. exact cond_holder_accepted. Qed.
 Print Assumptions C11_cond_holder_accepted.
 
-(* the embedded lock keeps the C09 invariant in every reachable Condition state *)
-Theorem C11_cond_invariant : forall fa ops, CInv (final cstep (cinit fa false) ops).
+Theorem C11_cond_refused_iff_not_holder : forall fa s c t n,
+  creach fa s -> cphase_of s t = PIdle ->
+  (snd (cstep s (CWait c t)) = RRuntime <-> ~ In t (held (lk s))) /\
+  (snd (cstep s (CNotify c t n)) = RRuntime <-> ~ In t (held (lk s))) /\
+  (snd (cstep s (CNotifyAll c t)) = RRuntime <-> ~ In t (held (lk s))).
+Proof. exact cond_refused_iff_not_holder. Qed.
+Print Assumptions C11_cond_refused_iff_not_holder.
+
+Theorem C11_cond_holder_is_lock_owner : forall fa s t,
+  creach fa s -> cphase_of s t = PIdle -> (In t (held (lk s)) <-> owner (lk s) = Some t).
+Proof. exact cond_holder_is_lock_owner. Qed.
+Print Assumptions C11_cond_holder_is_lock_owner.
+
+(* the shared lock keeps the C09 invariant in every reachable state of the extended alphabet *)
+Theorem C11_cond_invariant : forall fa ops, CInv (final cstep (cinit fa 0) ops).
 Proof. exact creachable_inv. Qed.
 Print Assumptions C11_cond_invariant.
 
-(* F7 on the tree before 826e17f (`pinned := true`): clause `requires_holder` fails and a wake-up is lost *)
-Theorem C11_cond_requires_holder_refuted_pinned :
+(* ---- F17 / F7 on the old trees (private owner copy): clause `requires_holder` fails both ways ---- *)
+Theorem C11_cond_holder_refused_refuted_pinned :
   exists fa ops t,
-    let s := final cstep (cinit fa true) ops in
-    cphase_of s t = PIdle /\ ~ In t (held (lk s)) /\ owner (lk s) = None /\
-    snd (cstep s (CNotify t 1)) = RDone /\ snd (cstep s (CNotifyAll t)) = RDone /\
-    snd (cstep s (CWait t)) = RRuntime /\ cwaiters (fst (cstep s (CWait t))) = [0] /\
-    exists ops2 w e,
-      let s2 := final cstep (fst (cstep s (CWait t))) ops2 in
-      cphase_of s2 w = PWait e /\ issued s2 = 1 /\ consumed s2 = 0 /\
-      setlog s2 = [0] /\ cphase_of s2 t = PIdle /\
-      eset s2 e = false /\ efut s2 e = FPending /\ cwaiters s2 = [e] /\
-      snd (cstep s2 (CResume w)) = RRejected.
+    let s := final cstep (cinit fa 1) ops in
+    cphase_of s t = PIdle /\ In t (held (lk s)) /\ owner (lk s) = Some t /\
+    cstep s (CNotify 0 t 1) = (s, RRuntime) /\ cstep s (CNotifyAll 0 t) = (s, RRuntime) /\
+    cstep s (CWait 0 t) = (s, RRuntime) /\
+    exists ops', let s1 := final cstep (cinit fa 1) ops' in
+      In t (held (lk s1)) /\ snd (cstep s1 (CNotify 1 t 1)) = RDone /\ snd (cstep s1 (CNotify 0 t 1)) = RRuntime.
+Proof. exact cond_holder_refused_refuted_pinned. Qed.
+Print Assumptions C11_cond_holder_refused_refuted_pinned.
+
+Theorem C11_cond_requires_holder_refuted_pinned :
+  (let s := final cstep (cinit false 1) [CAcquire 0 1; CResume 1; LRelease 1] in
+   cphase_of s 1 = PIdle /\ ~ In 1 (held (lk s)) /\ owner (lk s) = None /\
+   snd (cstep s (CNotify 0 1 1)) = RDone /\ snd (cstep s (CNotifyAll 0 1)) = RDone /\
+   snd (cstep s (CWait 0 1)) = RRuntime /\ cwaiters (fst (cstep s (CWait 0 1))) 0 = [0] /\
+   let s2 := final cstep (fst (cstep s (CWait 0 1)))
+               [CAcquire 0 2; CResume 2; CWait 0 2; CAcquire 0 3; CResume 3; CNotify 0 3 1] in
+   cphase_of s2 2 = PWait 0 1 /\ issued s2 = 1 /\ consumed s2 = 0 /\
+   setlog s2 = [0] /\ cphase_of s2 1 = PIdle /\
+   eset s2 1 = false /\ efut s2 1 = FPending /\ cwaiters s2 0 = [1] /\
+   snd (cstep s2 (CResume 2)) = RRejected) /\
+  (let s := final cstep (cinit false 2) [CAcquire 0 1; CResume 1; CRelease 0 1] in
+   cphase_of s 1 = PIdle /\ ~ In 1 (held (lk s)) /\ owner (lk s) = None /\
+   snd (cstep s (CNotify 0 1 1)) = RDone /\ snd (cstep s (CNotifyAll 0 1)) = RDone /\
+   snd (cstep s (CWait 0 1)) = RRuntime /\ cwaiters (fst (cstep s (CWait 0 1))) 0 = [0] /\
+   let s2 := final cstep (fst (cstep s (CWait 0 1)))
+               [CAcquire 0 2; CResume 2; CWait 0 2; CAcquire 0 3; CResume 3; CNotify 0 3 1] in
+   cphase_of s2 2 = PWait 0 1 /\ issued s2 = 1 /\ consumed s2 = 0 /\
+   setlog s2 = [0] /\ cphase_of s2 1 = PIdle /\
+   eset s2 1 = false /\ efut s2 1 = FPending /\ cwaiters s2 0 = [1] /\
+   snd (cstep s2 (CResume 2)) = RRejected).
 Proof. exact cond_requires_holder_refuted_pinned. Qed.
 Print Assumptions C11_cond_requires_holder_refuted_pinned.
+
+(* ---- known finding F18: "wait() returns only if a notify issued at or after its start selected it" ---- *)
+(* the strong clause, for one op sequence and for all *)
+Definition C11_notified_only_for (fa : bool) (ops : list cop) : Prop :=
+  forall t s',
+    let s := final cstep (cinit fa 0) ops in
+    (exists c e, cphase_of s t = PWait c e \/ exists x, cphase_of s t = PReacq c e x) ->
+    cstep s (CResume t) = (s', RDone) ->
+    exists c e, (cphase_of s t = PWait c e \/ cphase_of s t = PReacq c e false) /\
+                eset s e = true /\ e < horizon s e /\ In (horizon s e) (nlog s).
+
+Definition C11_notified_only_full : Prop := forall fa ops, C11_notified_only_for fa ops.
+
+Theorem C11_notified_only_no_late_handover : forall fa ops,
+  no_late_handover (cinit fa 0) ops = true -> C11_notified_only_for fa ops.
+Proof. exact cond_notified_only_no_late_handover. Qed.
+Print Assumptions C11_notified_only_no_late_handover.
+
+Theorem C11_late_handover_refuted :
+  exists fa ops t s',
+    let s := final cstep (cinit fa 0) ops in
+    no_late_handover (cinit fa 0) ops = false /\ clean_run (cinit fa 0) ops = true /\
+    cphase_of s t = PReacq 0 1 false /\ cstep s (CResume t) = (s', RDone) /\
+    nlog s = [1] /\ horizon s 1 = 1 /\ In t (held (lk s')) /\ consumed s' = 1.
+Proof. exact cond_late_handover_refuted. Qed.
+Print Assumptions C11_late_handover_refuted.
+
+Theorem C11_notified_only_full_refuted : ~ C11_notified_only_full.
+Proof. exact cond_notified_only_full_refuted. Qed.
+Print Assumptions C11_notified_only_full_refuted.
